@@ -313,7 +313,11 @@ func (g *gen) extensions(query string, hasQuery bool) (fj, string, string) {
 			}
 			h := shaOf(query)
 			if g.chance(12) {
-				h = shaOf(query + "x") // mismatch
+				h = shaOf(query + "x") // mismatch: a hash nobody asks for, or the hash of another catalogue text that
+				// later hash-only requests of this history do look up (a rejected request must not register or re-bind it)
+				if other := catalogue[g.pick(13)].text; other != query && g.chance(70) {
+					h = shaOf(other)
+				}
 				return fj{kind: 'o', kv: []kvp{{"persistedQuery", `{"sha256Hash":"` + h + `","version":1}`}}}, "", ""
 			}
 			kv := []kvp{{"persistedQuery", `{"sha256Hash":"` + h + `","version":1}`}}
@@ -373,7 +377,7 @@ func (g *gen) reqHeaders(ctype string) http.Header {
 	if ctype != "" {
 		h.Set("Content-Type", ctype)
 	}
-	switch g.pick(8) {
+	switch g.pick(12) {
 	case 0:
 		h.Set("Accept", "application/json")
 	case 1:
@@ -382,6 +386,12 @@ func (g *gen) reqHeaders(ctype string) http.Header {
 		h.Set("Accept", "*/*")
 	case 3:
 		h.Set("Accept", "text/html, application/json;q=0.9")
+	case 4:
+		h.Set("Accept", "application/*")
+	case 5:
+		h.Set("Accept", "application/graphql-response+json; charset=utf-8, application/json;q=0.5")
+	case 6:
+		h.Set("Accept", []string{"image/png", ";;", "text/plain, */*;q=0.1", "APPLICATION/JSON"}[g.pick(4)])
 	}
 	switch g.pick(6) {
 	case 0:
